@@ -46,7 +46,20 @@ def crit_value(shape: str, p: str):
     return {"lists_focus": [p], "lists_missing": ["not-in-header"], "empty": [], "int": 7, "str": p, "mixed": [p, 1], "nested": [[p]]}[shape]
 
 
+_SHARED: dict = {}
+
+
 def make_registry(case):
+    """fresh registry per case - or, for the reuse pass, ONE registry object per (kind, strict, custom) shared by all cases"""
+    if case.get("_reuse"):
+        k = ("jws" if case["mode"] == "jws" else "7797" if case["mode"] == "jws7797" else "jwe", case["strict"], case["custom"])
+        if k not in _SHARED:
+            _SHARED[k] = _make_registry(case, shared=True)
+        return _SHARED[k]
+    return _make_registry(case)
+
+
+def _make_registry(case, shared=False):
     from joserfc.registry import HeaderParameter
     mode = case["mode"]
     alg, enc = MODES[mode]
@@ -60,7 +73,10 @@ def make_registry(case):
         from joserfc.rfc7797 import JWSRegistry as R7797
         return R7797(header_registry=hr, algorithms=[alg], strict_check_header=case["strict"])
     from joserfc.jwe import JWERegistry
-    return JWERegistry(header_registry=hr, algorithms=[alg, enc, "DEF"], strict_check_header=case["strict"])
+    names = [alg, enc, "DEF"]
+    if shared:
+        names = sorted({x for a, e in MODES.values() if e for x in (a, e)} | {"DEF"})
+    return JWERegistry(header_registry=hr, algorithms=names, strict_check_header=case["strict"])
 
 
 def place(case, prot: dict, unprot: dict, rec: dict, consume_generated: bool):
@@ -150,6 +166,28 @@ def run_case(case) -> str:
         return "fail:" + type(e).__name__
 
 
+def reuse_pass(cases, seed):
+    """history independence of the header check: one registry object is reused for operations of every algorithm family
+    (after a good operation of each family has gone through it); every outcome must still be in the set TLC computed"""
+    rnd = random.Random(seed)
+    by_mode = {}
+    for c in cases:
+        by_mode.setdefault(c["c"]["mode"], []).append(c)
+    # warm up: one fully good produce and consume per family on the shared registries
+    for m in MODES:
+        good = next(c for c in by_mode[m] if c["allowed"] == ["ok"] and c["c"]["strict"] and c["c"]["custom"] == "none")
+        for op in ("produce", "consume"):
+            run_case({**good["c"], "op": op, "_reuse": True})
+    out = []
+    order = [c for m in MODES for c in rnd.sample(by_mode[m], min(len(by_mode[m]), 400)) if c["c"]["custom"] == "none" and c["c"]["strict"]]
+    rnd.shuffle(order)
+    for c in order:
+        o = run_case({**c["c"], "_reuse": True})
+        if o.split(":")[0] not in c["allowed"]:
+            out.append((c, o))
+    return out, len(order)
+
+
 def sig(case, obs):
     return (f"header:{case['mode']}.{case['op']}.{case['ser']} {case['p']}={case['c']}@{case['pos']} crit={case['crit']} "
             f"strict={case['strict']} custom={case['custom']} -> {obs.split(':')[0]}")
@@ -184,6 +222,14 @@ def run(ctx: Ctx) -> None:
             ctx.violation(sig(c["c"], o), {"case": c["c"], "allowed": c["allowed"], "observed": o})
         if len(c["allowed"]) == 1:
             ctx.nontrivial.add(json.dumps(c["c"], sort_keys=True))
+    from .common import _pool_init
+    _pool_init()
+    bad, nre = reuse_pass(cases, ctx.seed)
+    ctx.evaluations += nre
+    for c, o in bad:
+        ctx.violation("reused-registry " + sig(c["c"], o), {"case": c["c"], "allowed": c["allowed"], "observed": o,
+                                                             "history": "one registry object reused across algorithm families"})
+    ctx.notes["reuse_pass_cases"] = nre
     ctx.traces = len(cases)
     ctx.exhaustive = thorough
     ctx.notes["abstract_cases_total"] = total
